@@ -109,7 +109,12 @@ fn materialize(i: usize, o: &OutSpec, min_conf: u64) -> OutputData {
 /// reference rule: may the output be selected as an input of the default account?
 /// returns (must_not, description)
 fn must_not_select(o: &OutputData, min_conf: u64) -> Option<&'static str> {
-	if o.root_key_id != default_parent() {
+	must_not_select_from(o, min_conf, &default_parent())
+}
+
+/// the same rule for a payment whose source is the given account
+fn must_not_select_from(o: &OutputData, min_conf: u64, src: &Identifier) -> Option<&'static str> {
+	if o.root_key_id != *src {
 		return Some("other-account");
 	}
 	match o.status {
@@ -456,6 +461,8 @@ enum Flow {
 	LateLockShrunk,
 	Invoice,
 	Estimate,
+	/// a send whose source is the second account, named in the arguments while the default account is active
+	SendNamed,
 	/// a send is initiated (inputs chosen, nothing reserved yet); before its outputs are locked every chosen
 	/// input gets the given status in the store (spent by a confirmed transaction of the same seed, reserved by
 	/// another transaction, reorganised away) or is removed (scan with delete); then tx_lock_outputs runs
@@ -492,7 +499,6 @@ fn check_api(world: &World, flow: Flow, p: &Params) -> Result<&'static str, (Str
 	let b = world.w("B");
 	a.inj.lock().unwrap().budget = Some(3000);
 	let args = InitTxArgs {
-		src_acct_name: None,
 		amount: p.amount,
 		amount_includes_fee: Some(p.includes_fee),
 		minimum_confirmations: p.min_conf,
@@ -501,8 +507,10 @@ fn check_api(world: &World, flow: Flow, p: &Params) -> Result<&'static str, (Str
 		selection_strategy_is_use_all: p.use_all,
 		late_lock: Some(flow == Flow::LateLock || flow == Flow::LateLockShrunk),
 		estimate_only: Some(flow == Flow::Estimate),
+		src_acct_name: if flow == Flow::SendNamed { Some("acct1".to_owned()) } else { None },
 		..Default::default()
 	};
+	let src_parent = if flow == Flow::SendNamed { other_parent() } else { default_parent() };
 	let fname = format!("{:?}", flow);
 	let mut slate_ids = vec![];
 	// LateLockShrunk: initiation, the recipient's reply and the competing reservation happen
@@ -580,7 +588,7 @@ fn check_api(world: &World, flow: Flow, p: &Params) -> Result<&'static str, (Str
 				a.init_send(args.clone())?;
 				Ok(None)
 			}
-			Flow::Send => {
+			Flow::Send | Flow::SendNamed => {
 				let s1 = a.init_send(args.clone())?;
 				Ok(Some((s1.id, s1.amount)))
 			}
@@ -689,7 +697,7 @@ fn check_api(world: &World, flow: Flow, p: &Params) -> Result<&'static str, (Str
 						if o.value != *v {
 							return Err((format!("C01/input-value-mismatch/{}", fname), "context input value differs from the wallet record".to_owned()));
 						}
-						if let Some(why) = must_not_select(o, p.min_conf) {
+						if let Some(why) = must_not_select_from(o, p.min_conf, &src_parent) {
 							return Err((format!("C01/ineligible-input/{}", why), format!("{} selected an output that is not spendable ({})", fname, why)));
 						}
 					}
@@ -828,6 +836,7 @@ pub fn replay(payload: &Value) -> i32 {
 			"LateLock" => Flow::LateLock,
 			"LateLockShrunk" => Flow::LateLockShrunk,
 			"Invoice" => Flow::Invoice,
+			"SendNamed" => Flow::SendNamed,
 			"LockAfter(Spent)" => Flow::LockAfter(Gone::Spent),
 			"LockAfter(Locked)" => Flow::LockAfter(Gone::Locked),
 			"LockAfter(Reverted)" => Flow::LockAfter(Gone::Reverted),
@@ -918,6 +927,8 @@ pub fn run(_args: &[String]) -> i32 {
 			vec![OutSpec { value: 100, class: Class::Eligible }, OutSpec { value: 250, class: Class::Locked }, OutSpec { value: 600, class: Class::ImmatureCb }],
 			vec![OutSpec { value: 100, class: Class::UnconfPlain }, OutSpec { value: 250, class: Class::OtherAcct }, OutSpec { value: 600, class: Class::Eligible }],
 			vec![OutSpec { value: 100, class: Class::Reverted }, OutSpec { value: 250, class: Class::ConfMinus1 }, OutSpec { value: 600, class: Class::UnconfCoinbase }],
+			// two accounts with outputs of their own
+			vec![OutSpec { value: 100, class: Class::OtherAcct }, OutSpec { value: 250, class: Class::OtherAcct }, OutSpec { value: 600, class: Class::Eligible }],
 		];
 		if thorough {
 			for c in CLASSES.iter() {
@@ -944,9 +955,19 @@ pub fn run(_args: &[String]) -> i32 {
 			amounts.insert(total.saturating_sub(tx_fee(n, 3, 1) + 1));
 			amounts.insert(total.saturating_sub(tx_fee(n, 4, 1) + 8));
 			amounts.insert(vals[0].saturating_sub(tx_fee(1, 2, 1) + 5));
+			// whole outputs: the first pick covers the amount but not the fee, and selection runs again
+			for v in vals.iter() {
+				amounts.insert(*v);
+			}
+			if n >= 2 {
+				amounts.insert(vals[0] + vals[1]);
+			}
 		}
 		let mut cases = vec![];
 		let mut flows = vec![Flow::Send, Flow::LateLock, Flow::LateLockShrunk, Flow::Invoice, Flow::Estimate];
+		if outs.iter().any(|o| o.class == Class::OtherAcct) {
+			flows.push(Flow::SendNamed);
+		}
 		for g in GONE.iter() {
 			flows.push(Flow::LockAfter(*g));
 		}
@@ -1014,7 +1035,7 @@ pub fn run(_args: &[String]) -> i32 {
 		"arithmetic": {"wallet_multisets": msets.len(), "max_outputs_per_wallet": if thorough {4} else {3}, "value_alphabet": VALUES, "critical_amounts_total": n_amounts,
 			"change_counts": change_ns, "max_outputs": max_outs, "strategies": 2, "includes_fee": 2, "calls": calls[0], "ok": oks[0], "err": errs[0]},
 		"eligibility": {"class_assignments": el_jobs.len(), "classes": CLASSES.iter().map(|c| format!("{:?}", c)).collect::<Vec<_>>(), "min_conf": [0,1,10], "calls": calls[1], "ok": oks[1], "err": errs[1]},
-		"api": {"wallets": api_wallets.len(), "flows": ["Send","LateLock","LateLockShrunk","Invoice","Estimate","LockAfter(Spent)","LockAfter(Locked)","LockAfter(Reverted)","LockAfter(Removed)"], "calls": calls[2], "ok": oks[2], "err_or_estimate": errs[2]},
+		"api": {"wallets": api_wallets.len(), "flows": ["Send","LateLock","LateLockShrunk","Invoice","Estimate","SendNamed","LockAfter(Spent)","LockAfter(Locked)","LockAfter(Reverted)","LockAfter(Removed)"], "calls": calls[2], "ok": oks[2], "err_or_estimate": errs[2]},
 	}));
 	rep.cov("samples", json!([
 		{"wallet": [47,48,250], "amount": 250+48-67-2, "num_change_outputs": 2, "note": "critical amount S - fee - d"},
